@@ -100,6 +100,16 @@ fn exec_seq(sc: &Scenario) -> Report {
                 return r;
             }
         };
+        // optionally a steady ticker is installed for the whole history: position, length and
+        // finished status are bookkept the same way with it (only the drawing changes hands)
+        if sc.c("ticker_ms") > 0 {
+            let ms = sc.c("ticker_ms");
+            if let Err(e) = call(|| pb.enable_steady_tick(std::time::Duration::from_millis(ms))) {
+                r.violate("C07.no_panic", format!("enable_steady_tick panicked: {e}"));
+                return r;
+            }
+            r.probe("seq_with_ticker");
+        }
         let mut m = Model {
             pos: if sc.c("with_pos") == 1 { sc.c("pos0") } else { 0 },
             len: if sc.c("len_known") == 1 {
@@ -596,6 +606,9 @@ impl Check for C07 {
             sc.set("on_finish", rng.below(5));
             sc.set("len_known", rng.chance(3, 4) as u64);
             sc.set("len0", boundary_u64(rng));
+            if rng.chance(1, 6) {
+                sc.set("ticker_ms", *rng.pick(&[1, 50, 3_600_000]));
+            }
             if rng.chance(1, 5) {
                 sc.set("with_pos", 1);
                 sc.set("pos0", boundary_u64(rng));
